@@ -1807,12 +1807,12 @@ impl FieldValue {
                 // its declared type, so only missing required keys remain to check.
                 if !types.is_empty() && wildcard_map.is_none() {
                     for (k, ft) in types {
-                        if !vals.contains_key(k) {
-                            ft.validate(&FieldValue::Null).map_err(|err| {
-                                SchemaError::FieldValue(format!(
-                                    "invalid map value at key {k:?}, error: {err}"
-                                ))
-                            })?;
+                        // Only an optional key may be absent (see
+                        // `validate_map_fields`).
+                        if !vals.contains_key(k) && !ft.allows_null() {
+                            return Err(SchemaError::FieldValue(format!(
+                                "invalid map value at key {k:?}, error: missing required key"
+                            )));
                         }
                     }
                 }
@@ -2279,7 +2279,12 @@ fn validate_map_fields(
 
     for (k, ft) in types {
         let rt = match values.get(k) {
-            None => ft.validate_inner(&FieldValue::Null),
+            // Only an optional key may be absent: `Json` accepts an explicit
+            // null, but a required `Json` key still has to be present.
+            None if !ft.allows_null() => {
+                Err(SchemaError::FieldValue("missing required key".to_string()))
+            }
+            None => Ok(()),
             Some(v) => ft.validate_inner(v),
         };
 
